@@ -1009,6 +1009,7 @@ func runOnce(h *core.History, scratch string) (*core.Result, bool) {
 	c09 := w.props("C09")
 
 	for i, op := range h.Ops {
+		res.Scribble() // the key buffers handed to the previous call are reused by their caller
 		a := op.Parsed()
 		var key []byte
 		if len(a) > 0 {
@@ -1025,7 +1026,7 @@ func runOnce(h *core.History, scratch string) (*core.Result, bool) {
 		switch op.Code {
 		case opPut:
 			val := a[1].Bytes()
-			err := w.p.Put(key, val)
+			err := w.p.Put(res.CallerKey(key), val)
 			class = classOf(err)
 			if open {
 				if err != nil {
@@ -1058,7 +1059,7 @@ func runOnce(h *core.History, scratch string) (*core.Result, bool) {
 				}
 			}
 		case opRemove:
-			err := w.p.Remove(key)
+			err := w.p.Remove(res.CallerKey(key))
 			class = classOf(err)
 			if open {
 				if err != nil {
